@@ -2127,6 +2127,7 @@ impl StorageEngine {
             if stored_value.metadata.expires_at.is_some() {
                 stored_value.metadata.clear_expiration();
                 shard_guard.expiring_keys.remove(key);
+                shard_guard.mark_modified(key);
                 Ok(true)
             } else {
                 Ok(false)
